@@ -17,12 +17,51 @@ from facts import (
     sym_through,
     sym_walk,
     walk,
+    walk_deep,
 )
 from props.common import aggregates, arg_syms, atomic_ops, bool_switches, crate_stats, gates, need, nonforeign_calls, one_method, orderings_in
 
 TITLE = "C03 Key ==, cmp and hash agree and ignore how a key was built."
 CONFIGS = ["test-profile"]
 KEY = "metrics::key::Key"
+
+
+def is_hash_routine(f):
+    """role: the one routine that feeds (name, labels) of a key into a Hasher"""
+    sig = f.j.get("sig", "")
+    return f.dk == "Fn" and not f.j.get("exported") and not f.j.get("impl_trait") and "fn(&'a mut H" in sig.replace("'_", "'a") and "KeyName" in sig and "Label" in sig
+
+
+KEEP = [is_hash_routine]
+_CRATE = [None]  # crate used by the deep HIR walks of classify()
+
+
+def dwalk(node):
+    return walk_deep(_CRATE[0], node) if _CRATE[0] is not None else walk(node)
+
+
+def dcalls_in(node):
+    return [n for n in dwalk(node) if n.get("k") in ("Call", "MethodCall")]
+
+
+def key_fields(m):
+    """Key's private fields by role (type), so a field rename is invisible."""
+    adt = m.adts.get(KEY)
+    out = {}
+    for f in (adt or {}).get("variants", [{}])[0].get("fields", []):
+        ty = f.get("ty", "")
+        if ty.endswith("KeyName"):
+            out["name"] = f["name"]
+        elif "Label" in ty:
+            out["labels"] = f["name"]
+        elif "Atomic<bool>" in ty or "AtomicBool" in ty:
+            out["hashed"] = f["name"]
+        elif "Atomic<u64>" in ty or "AtomicU64" in ty:
+            out["hash"] = f["name"]
+    return out
+
+
+KF = {"name": "name", "labels": "labels", "hashed": "hashed", "hash": "hash"}
 CLASSES = {"0": 0, "1": 1, "2": 2, "3..7": 3, "8+": 8}
 SORTS = {"sort_by_key", "sort_by_cached_key", "sort_by", "sort", "sort_unstable", "sort_unstable_by", "sort_unstable_by_key"}
 
@@ -66,7 +105,7 @@ def arm_matches(arm, n):
 def label_indexes(node):
     """[(base-description, literal-index or None)] for every Index expression in the subtree."""
     out = []
-    for n in walk(node):
+    for n in dwalk(node):
         if n.get("k") == "Index":
             fc = field_chain(n["e"])
             base = ".".join([str(fc[0])] + fc[1]) if fc else "?"
@@ -77,7 +116,7 @@ def label_indexes(node):
 
 def classify(body):
     """Canonical form used by one arm of the labels.len() match."""
-    sorts = [c for c in calls_in(body) if (c.get("name") or "") in SORTS or strip_generics(call_name(c) or "").split("::")[-1] in SORTS]
+    sorts = [c for c in dcalls_in(body) if (c.get("name") or "") in SORTS or strip_generics(call_name(c) or "").split("::")[-1] in SORTS]
     if sorts:
         forms = set()
         for s in sorts:
@@ -100,7 +139,7 @@ def classify(body):
         return "single"
     if lits == {0, 1}:
         # a comparison whose two operands are different literal positions (same or different side)
-        for n in walk(body):
+        for n in dwalk(body):
             ops = None
             if n.get("k") == "Binary" and n.get("op") in ("Lt", "Le", "Gt", "Ge", "Eq", "Ne"):
                 ops = (n["a"], n["b"])
@@ -127,7 +166,7 @@ def classify(body):
 def forms_of(fn):
     """{class-name: form} from the `match labels.len()` of fn (None if not recognised)."""
     ms = []
-    for n in walk(fn.hir):
+    for n in dwalk(fn.hir):
         if n.get("k") == "Match" and n.get("src", "").startswith("Normal"):
             sc = peel(n["scrut"])
             if sc.get("k") == "MethodCall" and sc.get("name") == "len" and "label" in repr(field_chain(sc["recv"])).lower():
@@ -162,7 +201,7 @@ def run(ctx):
     u = ctx.crate("metrics_util")
     crate_stats(chk, m, u)
     chk.rule("C03.a", "SIB canonical-form agreement: for each label-count class {0,1,2,3..7,8+} the canonical form used by the hasher, by == and by cmp (none / single / unordered pair / stable sort by label name) is the same, so a == b <=> cmp == Equal and a == b => same hash", floor=5)
-    chk.rule("C03.b", "WMC one hashing routine: Hash for Key, get_hash and Key::builder all reach the same hashing function over (name, labels); every construction of a Key either starts un-hashed or stores the hash of exactly the (name, labels) it is built with; Clone copies all four fields from self", floor=6)
+    chk.rule("C03.b", "WMC one hashing routine (helpers spliced in): Hash for Key, get_hash and every pre-hashing constructor feed a hasher through the same routine over (name, labels); every construction of a Key either starts un-hashed or stores the hash of exactly the (name, labels) it is built with; Clone copies all four fields from self", floor=6)
     chk.rule("C03.c", "ORD+ATOM memoisation: get_hash stores hash before hashed (both >= Release), loads hashed (>= Acquire) before hash; the stored value is the hashing routine applied to self; Clone loads hashed before hash", floor=5)
     chk.rule("C03.d", "FWD representation independence: Hash/PartialEq/PartialOrd/Ord for Cow delegate to the target through deref() only; Label and KeyName derive their impls over (key, value) / the name in declaration order", floor=8)
     chk.rule("C03.e", "FWD util side: <Key as Hashable>::hashable returns self.get_hash()", floor=1)
@@ -170,14 +209,13 @@ def run(ctx):
     chk.residue.append("that sorting + lexicographic comparison yields a total order / equivalence once all three use one canonical form is the standard argument and is not re-proved")
 
     # ---------------- C03.a
-    hasher = m.fn("metrics::key::key_hasher_impl")
+    _CRATE[0] = m
+    KF.update(key_fields(m))
+    routines = m.role(is_hash_routine)
+    hasher = routines[0] if len(routines) == 1 else None
+    if hasher is None:
+        chk.unrecognised("C03.a", "<anchor> hashing routine of Key", f"expected one non-exported fn(&mut H: Hasher, &KeyName, labels), found {[f.path for f in routines]}")
     hash_impl = (m.method(KEY, "hash", "Hash") or [None])[0]
-    if hasher is None and hash_impl is not None:
-        # find the function reached from <Key as Hash>::hash that matches on labels.len()
-        for c in nonforeign_calls(hash_impl):
-            f = m.fn(c.resolved)
-            if f is not None and f.hir is not None and forms_of(f)[0]:
-                hasher = f
     eqf = (m.method(KEY, "eq", "PartialEq") or [None])[0]
     cmpf = (m.method(KEY, "cmp", "Ord") or [None])[0]
     tables = {}
@@ -204,31 +242,32 @@ def run(ctx):
             else:
                 d = f"all use `{got['eq']}`, which is not a canonical form for this class (label order / representation would matter)"
             chk.ob("C03.a", f"{KEY} [canonical form class {cname}]", ok, d, cmpf.loc() if cmpf else "")
-    # eq must compare name and length first; cmp must compare (name, len) first
+    # == and cmp must consult the key names and the label counts besides the labels themselves
+    def mentions_field(sym, role):
+        return f"'{KF[role]}'" in repr(sym)
+
     if eqf is not None:
-        b = eqf.body
-        rets_false_early = [c for c in nonforeign_calls(eqf) if c.is_("PartialEq::ne", "PartialEq::eq") and "'name'" in repr(arg_syms(c)[0])]
-        chk.ob("C03.a", f"{eqf.path} [name compared]", bool(rets_false_early), "== compares the names" if rets_false_early else "== does not compare the key names", eqf.loc(), nontrivial=False)
+        cs = [c for c in nonforeign_calls(eqf) if c.is_("PartialEq::ne", "PartialEq::eq") and mentions_field(arg_syms(c)[0], "name") and mentions_field(arg_syms(c)[1], "name")]
+        chk.ob("C03.a", f"{eqf.path} [name compared]", bool(cs), "== compares the names" if cs else "== does not compare the key names", eqf.loc(), nontrivial=False)
     if cmpf is not None:
-        cmps = [c for c in nonforeign_calls(cmpf) if c.is_("Ord::cmp", "PartialOrd::partial_cmp") and c.fn is cmpf]
-        first = [c for c in cmps if "'name'" in repr(arg_syms(c)[0]) and "'labels'" in repr(arg_syms(c)[0]) and all(cmpf.body.dominates(c.bb, o.bb) for o in cmps)]
-        chk.ob("C03.a", f"{cmpf.path} [name and length first]", bool(first), "cmp orders by (name, label count) before the labels" if first else "cmp does not start with (name, label count)", cmpf.loc(), nontrivial=False)
+        cmps = [c for c in nonforeign_calls(cmpf) if c.is_("Ord::cmp", "PartialOrd::partial_cmp")]
+        def both(c, role):
+            a = arg_syms(c)
+            return len(a) >= 2 and mentions_field(a[0], role) and mentions_field(a[1], role)
+        names = [c for c in cmps if both(c, "name")]
+        lens = [c for c in cmps if both(c, "labels") and any(sym_is_call(x, "len") for a in arg_syms(c) for x in sym_walk(a) if isinstance(x, tuple))]
+        ok = bool(names) and bool(lens)
+        chk.ob("C03.a", f"{cmpf.path} [name and length first]", ok, "cmp orders by name and label count besides the labels" if ok else "cmp does not compare (name, label count)", cmpf.loc(), nontrivial=False)
 
     # ---------------- C03.b
-    gen = m.fn("metrics::key::generate_key_hash")
     routine = hasher.path if hasher else None
-    if need(chk, "C03.b", "generate_key_hash", gen) and routine:
-        cs = [c for c in nonforeign_calls(gen) if c.resolved == routine]
-        ok = len(cs) == 1 and is_param(arg_syms(cs[0])[1], 0) and is_param(arg_syms(cs[0])[2], 1)
-        ret = strip_sym(Sym(gen).local(0))
-        ok = ok and sym_is_call(ret, "Hasher::finish")
-        chk.ob("C03.b", gen.path, ok, "generate_key_hash(name, labels) = finish(hasher fed by the one hashing routine over (name, labels))" if ok else "generate_key_hash does not run the shared hashing routine over its (name, labels)", gen.loc())
     if hash_impl is not None and routine:
-        cs = [c for c in nonforeign_calls(hash_impl) if c.resolved == routine]
-        ok = len(cs) == 1 and len(nonforeign_calls(hash_impl)) == 1
+        cs = [c for c in nonforeign_calls(hash_impl) if c.resolved == routine or c.callee == routine]
+        others = [c for c in nonforeign_calls(hash_impl) if c not in cs and not c.is_("Deref::deref", "AsRef::as_ref", "Borrow::borrow")]
+        ok = len(cs) == 1 and not [o for o in others if o.bb != cs[0].bb]
         if ok:
             a = arg_syms(cs[0])
-            ok = is_param(a[0], 1) and _self_field(a[1], "name") and _self_field(a[2], "labels")
+            ok = is_param(a[0], 1) and _self_field(a[1], KF["name"]) and _self_field(a[2], KF["labels"])
         chk.ob("C03.b", hash_impl.path, ok, "Hash for Key = the shared routine over (self.name, self.labels)" if ok else "Hash for Key does not use the shared hashing routine over (self.name, self.labels)", hash_impl.loc())
     n_aggs = check_key_constructions(chk, "C03.b", m)
     chk.analysed["Key constructions"] = n_aggs
@@ -237,37 +276,45 @@ def run(ctx):
     gh = one_method(chk, "C03.c", m, KEY, "get_hash")
     if gh:
         b = gh.body
-        ops = atomic_ops(gh)
+        ops = [o for o in atomic_ops(gh) if _self_field(o[2], KF["hashed"]) or _self_field(o[2], KF["hash"])]
         loads = [o for o in ops if o[1] == "load"]
-        stores = [o for o in ops if o[1] == "store"]
-        lh = [o for o in loads if _self_field(o[2], "hashed")]
-        lv = [o for o in loads if _self_field(o[2], "hash")]
-        sh = [o for o in stores if _self_field(o[2], "hashed")]
-        sv = [o for o in stores if _self_field(o[2], "hash")]
+        stores = [o for o in ops if o[1] in ("store", "swap")]
+        lh = [o for o in loads if _self_field(o[2], KF["hashed"])]
+        lv = [o for o in loads if _self_field(o[2], KF["hash"])]
+        sh = [o for o in stores if _self_field(o[2], KF["hashed"])]
+        sv = [o for o in stores if _self_field(o[2], KF["hash"])]
         shape = len(lh) == 1 and len(lv) == 1 and len(sh) == 1 and len(sv) == 1 and len(ops) == 4
-        chk.ob("C03.c", f"{gh.path} [protocol shape]", shape, "one load of hashed, one load of hash, one store of each" if shape else f"unexpected atomic operations {[(o[1], sym_str(o[2])[-20:]) for o in ops]}", gh.loc())
+        chk.ob("C03.c", f"{gh.path} [protocol shape]", shape, "one load of hashed, one load of hash, one write of each" if shape else f"unexpected atomic operations {[(o[1], sym_str(o[2])[-20:]) for o in ops]}", gh.loc())
         if shape:
             o1 = orderings_in(lh[0][3]) + orderings_in(lv[0][3])
-            ok = all(x in ("Acquire", "SeqCst") for x in o1) and len(o1) == 2
+            ok = all(x in ("Acquire", "AcqRel", "SeqCst") for x in o1) and len(o1) == 2
             chk.ob("C03.c", f"{gh.path} [consume orderings]", ok, f"loads are {o1}" if ok else f"loads are {o1}: must be >= Acquire to see the hash published by another thread", lh[0][0].loc())
             o2 = orderings_in(sv[0][3]) + orderings_in(sh[0][3])
-            ok = all(x in ("Release", "SeqCst") for x in o2) and len(o2) == 2
-            chk.ob("C03.c", f"{gh.path} [publish orderings]", ok, f"stores are {o2}" if ok else f"stores are {o2}: must be >= Release", sv[0][0].loc())
+            ok = all(x in ("Release", "AcqRel", "SeqCst") for x in o2) and len(o2) == 2
+            chk.ob("C03.c", f"{gh.path} [publish orderings]", ok, f"writes are {o2}" if ok else f"writes are {o2}: must be >= Release", sv[0][0].loc())
             ok = b.dominates(sv[0][0].bb, sh[0][0].bb) and sv[0][0].bb != sh[0][0].bb
-            chk.ob("C03.c", f"{gh.path} [hash before flag]", ok, "hash.store dominates hashed.store" if ok else "hashed is set before the hash value is stored: a racing reader can observe hashed == true with a stale hash", sh[0][0].loc())
-            # the hash load is on the hashed == true edge
-            g = gates(b, lv[0][0].bb)
-            ok = any(lab is True and sym_is_call(d, "load") and _self_field(strip_sym(d)[2][0], "hashed") for d, lab in g) and b.dominates(lh[0][0].bb, lv[0][0].bb)
-            chk.ob("C03.c", f"{gh.path} [flag before hash]", ok, "hash.load is control-dependent on hashed.load == true" if ok else "the cached hash is read without first seeing hashed == true", lv[0][0].loc())
-            v = strip_sym(sv[0][3][1])
-            ok = sym_is_call(v, "key::generate_key_hash") and _self_field(v[2][0], "name") and _self_field(v[2][1], "labels")
-            chk.ob("C03.c", f"{gh.path} [stored value]", ok, "stores generate_key_hash(&self.name, &self.labels)" if ok else f"stores {sym_str(v)[:100]}", sv[0][0].loc())
+            chk.ob("C03.c", f"{gh.path} [hash before flag]", ok, "the hash write dominates the flag write" if ok else "hashed is set before the hash value is stored: a racing reader can observe hashed == true with a stale hash", sh[0][0].loc())
+            # the hash load is reachable only when the flag load returned true
+            from facts import PredFlow
+
+            def cbool(x):
+                x = strip_sym(x)
+                if sym_is_call(x, "load") and _self_field(x[2][0], KF["hashed"]):
+                    return ("P", "N")
+                return None
+
+            fl = PredFlow(gh, lambda subj, v: None, cbool)
+            ok = fl.at(lv[0][0].bb) == "P" and b.dominates(lh[0][0].bb, lv[0][0].bb)
+            chk.ob("C03.c", f"{gh.path} [flag before hash]", ok, "hash.load is reachable only after hashed.load returned true" if ok else "the cached hash is read without first seeing hashed == true", lv[0][0].loc())
+            pair = hash_of_pair(gh, sv[0][3][1], routine)
+            ok = pair is not None and _self_field(pair[0], KF["name"]) and _self_field(pair[1], KF["labels"])
+            chk.ob("C03.c", f"{gh.path} [stored value]", ok, "stores finish() of a hasher fed by the shared routine over (&self.name, &self.labels)" if ok else f"stores {sym_str(strip_sym(sv[0][3][1]))[:100]}", sv[0][0].loc())
     cl = (m.method(KEY, "clone", "Clone") or [None])[0]
     if cl:
         ops = atomic_ops(cl)
-        lh = [o for o in ops if o[1] == "load" and _self_field(o[2], "hashed")]
-        lv = [o for o in ops if o[1] == "load" and _self_field(o[2], "hash")]
-        ok = len(lh) == 1 and len(lv) == 1 and cl.body.dominates(lh[0][0].bb, lv[0][0].bb) and lh[0][0].bb != lv[0][0].bb and all(x in ("Acquire", "SeqCst") for x in orderings_in(lh[0][3]) + orderings_in(lv[0][3]))
+        lh = [o for o in ops if o[1] == "load" and _self_field(o[2], KF["hashed"])]
+        lv = [o for o in ops if o[1] == "load" and _self_field(o[2], KF["hash"])]
+        ok = len(lh) == 1 and len(lv) == 1 and cl.body.dominates(lh[0][0].bb, lv[0][0].bb) and lh[0][0].bb != lv[0][0].bb and all(x in ("Acquire", "AcqRel", "SeqCst") for x in orderings_in(lh[0][3]) + orderings_in(lv[0][3]))
         chk.ob("C03.c", f"{cl.path} [flag before hash]", ok, "clone loads hashed (Acquire) before hash" if ok else "clone may copy hashed == true together with a hash that is not yet published", cl.loc())
 
     # ---------------- C03.d
@@ -316,9 +363,38 @@ def run(ctx):
             chk.ob("C03.e", f[0].path, ok, "hashable() = self.get_hash()" if ok else f"hashable() returns {sym_str(r)[:100]}: registry shard/lookup hash differs from the key's own hash", f[0].loc())
 
 
+def hash_of_pair(fn, h, routine):
+    """If h is `hasher.finish()` of a hasher that (in fn's body, helpers spliced in) is fed by exactly one call of the
+    shared hashing routine and nothing else, returns that call's (name-sym, labels-sym); else None."""
+    h = strip_sym(h)
+    if not sym_is_call(h, "Hasher::finish") or routine is None:
+        return None
+    hasher = strip_sym(h[2][0])
+    feeds, others = [], []
+    for f in fn.region():
+        for c in nonforeign_calls(f):
+            a = arg_syms(c)
+            if not a or strip_sym(a[0]) != hasher:
+                continue
+            if c.resolved == routine or c.callee == routine:
+                feeds.append(a)
+            elif not c.is_("Hasher::finish"):
+                others.append(c)
+    if len(feeds) != 1 or others:
+        return None
+    return feeds[0][1], feeds[0][2]
+
+
+def _same_value(a, b):
+    t = ("Deref::deref", "AsRef::as_ref", "Borrow::borrow")
+    return repr(sym_through(a, *t)) == repr(sym_through(b, *t))
+
+
 def check_key_constructions(chk, rule, m):
     """Every construction of a Key stores a hash that belongs to the (name, labels) it is built with."""
-    # every Key construction
+    KF.update(key_fields(m))
+    routines = m.role(is_hash_routine)
+    routine = routines[0].path if len(routines) == 1 else None
     n_aggs = 0
     for f in m.fns:
         if f.dk not in ("Fn", "AssocFn") or "::tests::" in f.path:
@@ -331,15 +407,15 @@ def check_key_constructions(chk, rule, m):
             fields = dict(zip(s["rv"]["fields"], [strip_sym(sy.operand(o)) for o in s["rv"]["ops"]]))
             where = f"{ff.path} [Key construction]"
             loc = f"{ff.file}:{s['ln']}"
-            hashed, hashv = fields.get("hashed"), fields.get("hash")
+            hashed, hashv = fields.get(KF["hashed"]), fields.get(KF["hash"])
             if hashed is None or hashv is None:
                 chk.unrecognised(rule, where, "Key has no hashed/hash fields", loc)
                 continue
             is_clone = ff.name == "clone" and (ff.j.get("impl_trait") or "").endswith("Clone")
             if is_clone:
-                ok = all(sym_is_call(fields[x], "Clone::clone") and _self_field(strip_sym(fields[x])[2][0], x) for x in ("name", "labels"))
-                ok = ok and sym_is_call(hashed, "Atomic<bool>::new", "AtomicBool::new") and sym_is_call(strip_sym(hashed[2][0]), "load") and _self_field(strip_sym(hashed[2][0])[2][0], "hashed")
-                ok = ok and sym_is_call(hashv, "Atomic<u64>::new", "AtomicU64::new") and sym_is_call(strip_sym(hashv[2][0]), "load") and _self_field(strip_sym(hashv[2][0])[2][0], "hash")
+                ok = all(sym_is_call(fields[KF[x]], "Clone::clone") and _self_field(strip_sym(fields[KF[x]])[2][0], KF[x]) for x in ("name", "labels"))
+                ok = ok and sym_is_call(hashed, "Atomic<bool>::new", "AtomicBool::new") and sym_is_call(strip_sym(hashed[2][0]), "load") and _self_field(strip_sym(hashed[2][0])[2][0], KF["hashed"])
+                ok = ok and sym_is_call(hashv, "Atomic<u64>::new", "AtomicU64::new") and sym_is_call(strip_sym(hashv[2][0]), "load") and _self_field(strip_sym(hashv[2][0])[2][0], KF["hash"])
                 chk.ob(rule, where, ok, "clone copies name, labels, hashed and hash from self" if ok else "clone does not copy (name, labels, hashed, hash) from the same key", loc)
                 continue
             flag = strip_sym(hashed[2][0]) if sym_is_call(hashed, "Atomic<bool>::new", "AtomicBool::new") else None
@@ -347,8 +423,9 @@ def check_key_constructions(chk, rule, m):
                 chk.ob(rule, where, True, "starts un-hashed (hash computed lazily from its own fields)", loc)
             elif flag is not None and flag[:3] == ("const", "bool", True) and sym_is_call(hashv, "Atomic<u64>::new", "AtomicU64::new"):
                 hv = strip_sym(hashv[2][0])
-                ok = sym_is_call(hv, "key::generate_key_hash") and repr(strip_sym(hv[2][0])) == repr(fields["name"]) and repr(strip_sym(hv[2][1])) == repr(fields["labels"])
-                chk.ob(rule, where, ok, "pre-hashed with generate_key_hash over exactly the name and labels it stores" if ok else f"stored hash is {sym_str(hv)[:100]} — not the hash of the (name, labels) this key is built with", loc)
+                pair = hash_of_pair(ff, hv, routine)
+                ok = pair is not None and _same_value(pair[0], fields[KF["name"]]) and _same_value(pair[1], fields[KF["labels"]])
+                chk.ob(rule, where, ok, "pre-hashed by the shared routine over exactly the name and labels it stores" if ok else f"stored hash is {sym_str(hv)[:100]} — not the hash of the (name, labels) this key is built with", loc)
             else:
                 chk.ob(rule, where, False, f"hashed/hash fields are taken from {sym_str(hashed)[:70]} / {sym_str(hashv)[:70]}: a key built from another key's cached hash keeps a stale hash when its labels differ", loc)
     return n_aggs
